@@ -22,6 +22,7 @@ NUMARR_FIELDS = ('xs', 'ranges')
 BOOLARR_FIELDS = ('bs',)
 MSG_FIELDS = {'m': {'x': 'num', 'ok': 'bool'}}
 ALIASES = ('A', 'Msg_1')
+CASE_IDS = ('Safe_Stop', 'safe_stop', 'SAFE_STOP', 'stopOnBumper', 'stoponbumper', 'P1', 'p1')
 WORDY_NAMES = ('min', 'max', 'len', 'log', 'sum', 'abs', 'int', 'sqrt')
 
 NUM_LITS = ('0', '1', '2', '3', '0.5', '1.5', '4', '10', '1.0', '2.0', '255', '360', '1000', '0.1', '3.14159', '1e3', '2147483648',
@@ -417,7 +418,7 @@ class ExprGen:
         op = s.weighted('conn', [(4, 'and'), (4, 'or'), (2, 'implies'), (2, 'iff')])
         a = self.boolean(d + 1)
         if s.coin('trigb', self.trig_bias):
-            c = s.choose('trigbkind', 15)
+            c = s.choose('trigbkind', 17)
             if c >= 13 and self.allow_quant and d + 2 < self.max_depth:
                 # sibling quantifiers over the same domain, same kind
                 dom = self.num_compound(d + 2)
@@ -427,6 +428,10 @@ class ExprGen:
                     q2 = self.quant(d + 1, dom)
                 finally:
                     self.force_quantifier = None
+                if self.free_vars and q1[2] != q2[2] and q1[2] in FREE_VARS and s.coin('sibfree', 0.8):
+                    # the second body also mentions, FREE, the name the first one binds
+                    extra = ('bin', s.pick('sibrel', RELOPS + EQOPS), ('var', q1[2]), self.num_lit())
+                    q2 = (q2[0], q2[1], q2[2], q2[3], ('bin', s.pick('sibconn', ('and', 'or')), q2[4], extra))
                 return ('bin', op, q1, q2)
             if c >= 11:
                 return ('bin', op, a, variant(s, a)) if c == 11 else ('bin', op, ('un', 'not', a), variant(s, a))
@@ -610,7 +615,7 @@ def has_reference(t):
     return any(has_reference(c) for _s, c in children_of(t))
 
 
-def sanitize_powers(t):
+def _sanitize_powers(t):
     """Replace every constant, non-literal exponent by the literal 2 (a constant power tower would
     make the library's constant folding compute astronomically large integers and hang)."""
     if not isinstance(t, tuple):
@@ -618,9 +623,9 @@ def sanitize_powers(t):
     out = []
     for c in t:
         if isinstance(c, tuple):
-            out.append(sanitize_powers(c))
+            out.append(_sanitize_powers(c))
         elif isinstance(c, list):
-            out.append([sanitize_powers(e) if isinstance(e, tuple) else e for e in c])
+            out.append([_sanitize_powers(e) if isinstance(e, tuple) else e for e in c])
         else:
             out.append(c)
     t = tuple(out)
@@ -631,6 +636,50 @@ def sanitize_powers(t):
         elif (e[0] == 'lit' and e[1] == 'num' and abs(float(e[2])) > 64) or (e[0] == 'neglit' and abs(float(e[1])) > 64):
             # a huge literal exponent on a constant base is the same hang (179 ** 2147483648)
             t = ('bin', '**', t[2], ('lit', 'num', '3'))
+    return t
+
+
+def sanitize_powers(t):
+    """Keep the library's constant folding from running for minutes: no constant power towers, no
+    huge literal exponents, no aggregates over literal ranges of millions of integers."""
+    return sanitize_ranges(_sanitize_powers(t))
+
+
+def _lit_value(t):
+    if t[0] == 'lit' and t[1] == 'num':
+        return float(t[2])
+    if t[0] == 'neglit':
+        return -float(t[1])
+    return None
+
+
+def sanitize_ranges(t):
+    """An aggregate (sum, prod, max, min, gcd) over a literal range of millions of integers makes the
+    library's constant folding iterate over every one of them (minutes): the upper bound of such a
+    range is brought within 1000 of the lower one. Ranges elsewhere keep their bounds."""
+    if not isinstance(t, tuple):
+        return t
+    out = []
+    for c in t:
+        if isinstance(c, tuple):
+            out.append(sanitize_ranges(c))
+        elif isinstance(c, list):
+            out.append([sanitize_ranges(e) if isinstance(e, tuple) else e for e in c])
+        else:
+            out.append(c)
+    t = tuple(out)
+    if t[0] in ('call', 'callv') and t[1] in ('sum', 'prod', 'max', 'min', 'gcd'):
+        args = t[2] if isinstance(t[2], list) else [t[2]]
+        new = []
+        for a in args:
+            if isinstance(a, tuple) and a[0] == 'range':
+                lo, hi = _lit_value(a[1]), _lit_value(a[2])
+                if lo is not None and hi is not None and abs(hi - lo) > 100000:
+                    small = ('lit', 'num', '1000') if lo <= 1000 else a[1]
+                    big = a[2] if hi <= 1000 else small
+                    a = (a[0], a[1] if abs(lo) <= 100000 else ('lit', 'num', '0'), big) + tuple(a[3:])
+            new.append(a)
+        t = (t[0], t[1], new if isinstance(t[2], list) else new[0]) + tuple(t[3:])
     return t
 
 
@@ -939,6 +988,8 @@ class PropGen:
         self.allow_consts = allow_consts
         self.acount = 0
         self.wordy = sim.coin('wordyaliases', 0.12)
+        # identifiers of one project written by several hands: the same words, other capitals
+        self.id_pool = CASE_IDS if sim.coin('caseids', 0.12) else None
 
     def predicate(self, visible):
         s = self.sim
@@ -1024,11 +1075,13 @@ class PropGen:
             for i in s.permutation('metaorder', 3)[:s.randint('nmeta', 1, 3)]:
                 k = keys[i]
                 if k == 'id':
-                    meta.append((k, 'p%d' % s.choose('pid', 100)))
+                    meta.append((k, s.pick('caseid', self.id_pool) if self.id_pool else 'p%d' % s.choose('pid', 100)))
                 elif s.coin('richmeta', 0.4):
                     meta.append((k, string_literal(s)))
                 else:
                     meta.append((k, '"%s %d"' % (k, s.choose('mv', 100))))
+        if self.id_pool and self.with_meta and not any(k == 'id' for k, _v in meta):
+            meta.insert(0, ('id', s.pick('caseid2', self.id_pool)))
         return {'meta': meta, 'scope': (scope, act, term), 'pattern': (pattern, trig, beh, bound)}
 
 
